@@ -1306,19 +1306,26 @@ def batchI (cfg : Cfg) (self : ChainId) (seq0 : ChainId → Nat) (strict : Bool)
       match sendKeeper cfg { c with evm := e1 } p with
       | none => none
       | some c1 => batchI cfg self seq0 strict c1 ls
+  | c, .fakelog _ :: ls => batchI cfg self seq0 strict c ls     -- a look-alike log of another contract: not a packet
+
+theorem hookPackets_packet (p : Packet) (logs : List SentLog) : hookPackets ((acPacket, p) :: logs) = p :: hookPackets logs := by
+  simp [hookPackets]
+theorem hookPackets_foreign (a : Acct) (p : Packet) (logs : List SentLog) (h : a ≠ acPacket) :
+    hookPackets ((a, p) :: logs) = hookPackets logs := by
+  simp [hookPackets, h]
 
 /-- the transaction as `ApplyTransaction` runs it: the whole EVM execution first, then the hook over all events -/
 def twoPhase (cfg : Cfg) (self : ChainId) (seq0 : ChainId → Nat) (strict : Bool) (c : Chain) (legs : List Leg) : Option Chain :=
   match batchEvm cfg self seq0 strict c.evm legs with
   | none => none
-  | some (e, ps) => batchKeeper cfg { c with evm := e } ps
+  | some (e, logs) => batchKeeper cfg { c with evm := e } (hookPackets logs)
 
 /-- **EVM-then-hooks = leg by leg**: because the hook handles every `PacketSent` event in order and fails on the first
 failing `SendPacket`, running the hooks after the whole EVM execution commits exactly what a leg-by-leg execution
 would (and fails exactly when it would). -/
 theorem twoPhase_eq_batchI (cfg : Cfg) (self : ChainId) (seq0 : ChainId → Nat) (strict : Bool) :
     ∀ (legs : List Leg) (c : Chain), twoPhase cfg self seq0 strict c legs = batchI cfg self seq0 strict c legs
-  | [], c => by simp [twoPhase, batchEvm, batchKeeper, batchI]
+  | [], c => by simp [twoPhase, batchEvm, batchKeeper, batchI, hookPackets]
   | .approve t n :: ls, c => by
     have ih := twoPhase_eq_batchI cfg self seq0 strict ls
       { c with evm := { c.evm with allow := upd2 c.evm.allow t acForwarder n } }
@@ -1353,7 +1360,7 @@ theorem twoPhase_eq_batchI (cfg : Cfg) (self : ChainId) (seq0 : ChainId → Nat)
         | none => rfl
         | some r2 =>
           obtain ⟨e2, ps⟩ := r2
-          simp only [batchKeeper, sendKeeper, hk, and_self, ↓reduceIte]
+          simp only [hookPackets_packet, batchKeeper, sendKeeper, hk, and_self, ↓reduceIte]
       · have hk1 : ∀ e, sendKeeper cfg { c with evm := e } p = none := by
           intro e; simp [sendKeeper, hk]
         rw [hk1]
@@ -1361,7 +1368,16 @@ theorem twoPhase_eq_batchI (cfg : Cfg) (self : ChainId) (seq0 : ChainId → Nat)
         | none => rfl
         | some r2 =>
           obtain ⟨e2, ps⟩ := r2
-          simp only [batchKeeper, hk1]
+          simp only [hookPackets_packet, batchKeeper, hk1]
+  | .fakelog q :: ls, c => by
+    have ih := twoPhase_eq_batchI cfg self seq0 strict ls c
+    simp only [twoPhase, batchEvm, batchI] at ih ⊢
+    rw [← ih]
+    cases hb : batchEvm cfg self seq0 strict c.evm ls with
+    | none => rfl
+    | some r2 =>
+      obtain ⟨e2, ps⟩ := r2
+      simp only [hookPackets_foreign acEmitter q ps (by decide)]
 
 /-- generic preservation: a world property that survives (a) a complete single send on chain `X` and (b) a change of
 chain `X`'s EVM state that the bridge bookkeeping does not see, survives every batch on `X`. -/
@@ -1380,6 +1396,9 @@ theorem batchI_preserves (P : World → Prop) (X : ChainId) (seq0 : ChainId → 
       ⟨rfl, rfl, rfl, rfl, rfl, rfl, fun _ => Nat.le_refl _⟩
     have := batchI_preserves P X seq0 strict hsend hframe ls _ c' h1 (by rw [set_cfg, set_chains_eq]; exact h)
     rw [set_set] at this; exact this
+  | .fakelog _ :: ls, w, c', hP, h => by
+    simp only [batchI] at h
+    exact batchI_preserves P X seq0 strict hsend hframe ls w c' hP h
   | .send a :: ls, w, c', hP, h => by
     simp only [batchI] at h
     split at h
@@ -3036,6 +3055,7 @@ example : FeeSolvent (run true w0 (f13Steps ++ callOnlySteps)) :=
 def Leg.isSend : Leg → Bool
   | .send _ => true
   | .approve _ _ => false
+  | .fakelog _ => false
 
 theorem batchI_strict_commits (cfg : Cfg) (self : ChainId) (seq0 : ChainId → Nat) :
     ∀ (legs : List Leg) (c c' : Chain), batchI cfg self seq0 true c legs = some c' →
@@ -3046,6 +3066,10 @@ theorem batchI_strict_commits (cfg : Cfg) (self : ChainId) (seq0 : ChainId → N
   | .approve t n :: ls, c, c', h => by
     simp only [batchI] at h
     have := batchI_strict_commits cfg self seq0 ls _ c' h
+    simpa [Leg.isSend] using this
+  | .fakelog _ :: ls, c, c', h => by
+    simp only [batchI] at h
+    have := batchI_strict_commits cfg self seq0 ls c c' h
     simpa [Leg.isSend] using this
   | .send a :: ls, c, c', h => by
     simp only [batchI] at h
@@ -3074,6 +3098,10 @@ theorem batchI_strict_no_client (cfg : Cfg) (self : ChainId) (seq0 : ChainId →
     simp only [batchI]
     cases h with
     | tail _ h => exact batchI_strict_no_client cfg self seq0 a hc ls _ h
+  | .fakelog _ :: ls, c, h => by
+    simp only [batchI]
+    cases h with
+    | tail _ h => exact batchI_strict_no_client cfg self seq0 a hc ls c h
   | .send b :: ls, c, h => by
     simp only [batchI]
     cases hs : sendEvm cfg self (seq0 b.dst) c.evm acForwarder b with
@@ -3169,5 +3197,99 @@ example :
     ((run true w0 regSteps2).chains 0).evm.bal 1 0 = 10000 := by decide
 
 example : Conserved (run true w0 regSteps2) := conserved_run w0 _ inv_w0
+
+/-! ### look-alike `PacketSent` logs of other contracts are not packets -/
+
+def Leg.isFakelog : Leg → Bool
+  | .fakelog _ => true
+  | _ => false
+
+theorem hookPackets_all_foreign (logs : List SentLog) (h : ∀ l ∈ logs, l.1 ≠ acPacket) : hookPackets logs = [] := by
+  unfold hookPackets
+  have : logs.filter (fun l => l.1 == acPacket) = [] := by
+    apply List.filter_eq_nil_iff.mpr
+    intro l hl
+    simpa using h l hl
+  rw [this]; rfl
+
+/-- whatever else a transaction does, the look-alike logs in its receipt change nothing: the transaction commits exactly
+what it would commit without them -/
+theorem batchI_drop_fakelogs (cfg : Cfg) (self : ChainId) (seq0 : ChainId → Nat) (strict : Bool) :
+    ∀ (legs : List Leg) (c : Chain),
+      batchI cfg self seq0 strict c legs = batchI cfg self seq0 strict c (legs.filter (fun l => !l.isFakelog))
+  | [], c => rfl
+  | .approve t n :: ls, c => by
+    simp only [batchI, List.filter, Leg.isFakelog, Bool.not_false]
+    exact batchI_drop_fakelogs cfg self seq0 strict ls _
+  | .fakelog q :: ls, c => by
+    simp only [batchI, List.filter, Leg.isFakelog, Bool.not_true]
+    exact batchI_drop_fakelogs cfg self seq0 strict ls c
+  | .send a :: ls, c => by
+    simp only [batchI, List.filter, Leg.isFakelog, Bool.not_false]
+    cases sendEvm cfg self (seq0 a.dst) c.evm acForwarder a with
+    | none =>
+      simp only
+      cases strict
+      · simp; exact batchI_drop_fakelogs cfg self seq0 false ls c
+      · simp
+    | some r =>
+      obtain ⟨e1, p⟩ := r
+      simp only
+      cases sendKeeper cfg { c with evm := e1 } p with
+      | none => rfl
+      | some c1 => simp only; exact batchI_drop_fakelogs cfg self seq0 strict ls c1
+
+theorem batch_drop_fakelogs_twoPhase (cfg : Cfg) (self : ChainId) (seq0 : ChainId → Nat) (strict : Bool) (legs : List Leg) (c : Chain) :
+    twoPhase cfg self seq0 strict c legs = twoPhase cfg self seq0 strict c (legs.filter (fun l => !l.isFakelog)) := by
+  rw [twoPhase_eq_batchI, twoPhase_eq_batchI]; exact batchI_drop_fakelogs cfg self seq0 strict legs c
+
+/-- **The hook ignores foreign logs.** A transaction whose `PacketSent`-shaped logs all come from other addresses than
+the packet contract (here: every frame of the batch is a call to a log-emitting contract, with ANY packets encoded in
+the data — right source, right destination, the right next sequence included) commits nothing and changes no counter:
+commitments, send sequences, receipts, acknowledgements, escrow, bindings, fee records and ack status are as before. -/
+theorem hook_ignores_foreign_logs (w : World) (i : ChainId) (sender : Acct) (strict : Bool) (legs : List Leg)
+    (hall : ∀ l ∈ legs, l.isFakelog = true) :
+    let w' := step true w (.batch i sender strict legs)
+    (w'.chains i).commits = (w.chains i).commits ∧ (w'.chains i).nextSeq = (w.chains i).nextSeq ∧
+    (w'.chains i).receipts = (w.chains i).receipts ∧ (w'.chains i).acks = (w.chains i).acks ∧
+    (w'.chains i).evm.out = (w.chains i).evm.out ∧ (w'.chains i).evm.bindAmt = (w.chains i).evm.bindAmt ∧
+    (w'.chains i).evm.fee = (w.chains i).evm.fee ∧ (w'.chains i).evm.feePaid = (w.chains i).evm.feePaid ∧
+    (∀ j, j ≠ i → w'.chains j = w.chains j) ∧ w'.cfg = w.cfg := by
+  simp only [step]
+  split
+  · exact ⟨rfl, rfl, rfl, rfl, rfl, rfl, rfl, rfl, fun _ _ => rfl, rfl⟩
+  · rename_i c' hb
+    obtain ⟨e0, hle, htp⟩ := batch_some hb
+    rw [twoPhase_eq_batchI, batchI_drop_fakelogs] at htp
+    have hnil : legs.filter (fun l => !l.isFakelog) = [] := by
+      apply List.filter_eq_nil_iff.mpr
+      intro l hl
+      simp [hall l hl]
+    rw [hnil] at htp
+    simp only [batchI] at htp
+    have := (Option.some.inj htp).symm
+    subst this
+    refine ⟨?_, ?_, ?_, ?_, ?_, ?_, ?_, ?_, ?_, rfl⟩
+    · rw [set_chains_eq]
+    · rw [set_chains_eq]
+    · rw [set_chains_eq]
+    · rw [set_chains_eq]
+    · rw [set_chains_eq]; exact hle.out
+    · rw [set_chains_eq]; exact hle.bindAmt
+    · rw [set_chains_eq]; exact hle.fee
+    · rw [set_chains_eq]; exact hle.feePaid
+    · intro j hj; exact set_chains_ne _ _ hj
+
+/-- a concrete batch on chain 0 of `w3`: a look-alike log before and after a genuine send, and alone -/
+def fakePacket (dst seq : Nat) : Packet :=
+  { src := 0, dst := dst, seq := seq, sender := 0,
+    transfer := some { token := 0, ori := none, amount := 1000, receiver := 0 }, call := .none, callback := false }
+
+example :
+    let w := run true w3 [.transfer 0 1 0 acForwarder 3000,
+      .batch 0 0 true [.fakelog (fakePacket 1 1)],                                                  -- alone, with the right next sequence
+      .batch 0 0 true [.approve 1 100000, .fakelog (fakePacket 1 1), leg 1 300 5, .fakelog (fakePacket 1 2), .fakelog (fakePacket 2 1)]]
+    (w.chains 0).commits.length = 1 ∧ (w.chains 0).nextSeq 1 = 2 ∧ (w.chains 0).nextSeq 2 = 1 ∧
+    (w.chains 0).evm.out 1 1 = 300 ∧ (w.chains 0).evm.out 0 1 = 0 := by decide
 
 end TM.World
